@@ -18,6 +18,7 @@
 #include "Util/CompInfo.h"
 #include "LinAlg/SearchSpace.h"
 #include "LinAlg/RitzPairs.h"
+#include "Util/VerifHook.h"
 
 namespace Spectra {
 
@@ -34,6 +35,7 @@ template <typename Derived, typename OpType>
 class JDSymEigsBase
 {
 protected:
+    SPECTRA_VERIF_FRIEND
     using Index = Eigen::Index;
     using Scalar = typename OpType::Scalar;
     using Matrix = Eigen::Matrix<Scalar, Eigen::Dynamic, Eigen::Dynamic>;
@@ -156,6 +158,7 @@ public:
             }
 
             m_search_space.update_operator_basis_product(m_matrix_operator);
+            SPECTRA_VERIF_EVENT("JDIter", this, (long long) niter_, (long long) m_search_space.size(), (long long) do_restart, (long long) m_max_search_space_size);
 
             Eigen::ComputationInfo small_problem_info = m_ritz_pairs.compute_eigen_pairs(m_search_space);
             if (small_problem_info != Eigen::ComputationInfo::Success)
